@@ -211,3 +211,147 @@ pub(crate) fn partial_reply(id: usize, slot: u8) -> PartialReply {
 pub(crate) fn partial_reply_id(p: &PartialReply) -> usize {
     p.message_id.0
 }
+
+// =================================================================================================
+// C13: XML-equivalent serialisations (event level), reply readers.
+
+fn empty_reply_on(t: Tape) -> Result<EmptyReply, ReadError> {
+    tape::register(0, t);
+    let mut reader = reader_for(0);
+    let start = BytesStart::from_id(n::RPC_REPLY);
+    EmptyReply::read_xml(&mut reader, &start)
+}
+
+fn outcome_code(r: &Result<EmptyReply, ReadError>) -> u8 {
+    match r {
+        Ok(EmptyReply::Ok) => 0,
+        Ok(EmptyReply::Errs(_)) => 1,
+        Err(_) => 2,
+    }
+}
+
+/// C13 (comments): inserting a comment before, between or after the items of a reply does
+/// not change what `EmptyReply` makes of it.
+#[kani::proof]
+#[kani::unwind(10)]
+#[kani::stub(<crate::message::rpc::Error as crate::message::ReadXml>::read_xml, crate::message::rpc::error::verif_error::stub_read_xml)]
+#[kani::stub(crate::message::rpc::Errors::new, crate::message::rpc::error::verif_error::stub_errors_new)]
+#[kani::stub(crate::message::rpc::Errors::push, crate::message::rpc::error::verif_error::stub_errors_push)]
+fn c13_empty_reply_comment_insertion() {
+    use_reply_tables();
+    let item = Item::any();
+    kani::assume(item != Item::Comment);
+    let mut t1 = Tape::EMPTY;
+    push_item_stubbed(&mut t1, item);
+    reply_close(&mut t1);
+    let before: bool = kani::any();
+    let mut t2 = Tape::EMPTY;
+    if before {
+        t2.push(cells::COMMENT);
+    }
+    push_item_stubbed(&mut t2, item);
+    if !before {
+        t2.push(cells::COMMENT);
+    }
+    reply_close(&mut t2);
+    let r1 = empty_reply_on(t1);
+    let r2 = empty_reply_on(t2);
+    assert!(outcome_code(&r1) == outcome_code(&r2), "C13 EmptyReply: a comment changes the outcome");
+    kani::cover!(outcome_code(&r1) == 0, "ok reply");
+    kani::cover!(outcome_code(&r1) == 1, "error reply");
+    std::mem::forget((r1, r2));
+}
+
+/// C13 (empty-element form): `<ok/>` and `<ok></ok>` carry the same information.
+#[kani::proof]
+#[kani::unwind(10)]
+fn c13_empty_reply_ok_element_form() {
+    use_reply_tables();
+    let mut t1 = Tape::EMPTY;
+    push_item(&mut t1, Item::Ok);
+    reply_close(&mut t1);
+    let mut t2 = Tape::EMPTY;
+    push_item(&mut t2, Item::OkPair);
+    reply_close(&mut t2);
+    let r1 = empty_reply_on(t1);
+    let r2 = empty_reply_on(t2);
+    assert!(outcome_code(&r1) == outcome_code(&r2), "C13 EmptyReply: <ok/> and <ok></ok> are treated differently");
+    kani::cover!(outcome_code(&r1) == 0, "<ok/> accepted");
+    std::mem::forget((r1, r2));
+}
+
+/// C13 (XML declaration): a reply document that starts with `<?xml ...?>` parses like one
+/// without it (`ServerMsg::from_xml` for `PartialReply`).
+#[kani::proof]
+#[kani::unwind(10)]
+fn c13_partial_reply_xml_declaration() {
+    use_reply_tables();
+    let mut t1 = Tape::EMPTY;
+    t1.attrs[0] = cells::MSGID_101;
+    t1.push(cells::REPLY_START);
+    t1.push(cells::OK);
+    t1.push(cells::REPLY_END);
+    let mut t2 = Tape::EMPTY;
+    t2.attrs[0] = cells::MSGID_101;
+    t2.push(quick_xml::tape::Cell::other(quick_xml::tape::kind::DECL, 0));
+    t2.push(cells::REPLY_START);
+    t2.push(cells::OK);
+    t2.push(cells::REPLY_END);
+    tape::register(0, t1);
+    tape::register(1, t2);
+    let r1 = PartialReply::from_xml(tape::input_for(0));
+    let r2 = PartialReply::from_xml(tape::input_for(1));
+    assert!(r1.is_ok() == r2.is_ok(), "C13 rpc-reply: an XML declaration changes whether the reply is accepted");
+    kani::cover!(r1.is_ok(), "reply without declaration accepted");
+    std::mem::forget((r1, r2));
+}
+
+// =================================================================================================
+// C14: arbitrary event sequences never panic or loop.
+
+/// C14: `Reply::<CloseSession>::from_xml` over a tape of up to 4 *arbitrary* cells (any kind
+/// including tokenizer errors and unbalanced ends, any known name, namespace and text,
+/// message-id texts including huge, negative, empty and non-numeric ones): returns `Ok` or
+/// `Err`; no panic, no arithmetic overflow (Kani's checks), every loop ends within the tape
+/// (unwinding assertions).
+#[kani::proof]
+#[kani::unwind(10)]
+#[kani::stub(<crate::message::rpc::Error as crate::message::ReadXml>::read_xml, crate::message::rpc::error::verif_error::stub_read_xml)]
+#[kani::stub(crate::message::rpc::Errors::new, crate::message::rpc::error::verif_error::stub_errors_new)]
+#[kani::stub(crate::message::rpc::Errors::push, crate::message::rpc::error::verif_error::stub_errors_push)]
+fn c14_reply_arbitrary_events() {
+    use crate::message::rpc::operation::CloseSession;
+    use quick_xml::tape::{AttrCell, Cell};
+    use_reply_tables();
+    let mut t = Tape::EMPTY;
+    let idt: u8 = kani::any();
+    kani::assume(idt < 16);
+    t.attrs[0] = AttrCell::new(a::MESSAGE_ID, idt);
+    let n: usize = kani::any();
+    kani::assume(n <= 4);
+    let mut i = 0;
+    while i < 4 {
+        if i < n {
+            let kind: u8 = kani::any();
+            kani::assume(kind <= 9);
+            let nsc: u8 = kani::any();
+            kani::assume(nsc <= 4 || nsc == 255);
+            let name: u8 = kani::any();
+            kani::assume(name < 12);
+            let text: u8 = kani::any();
+            kani::assume(text < 16);
+            let with_attr: bool = kani::any();
+            let mut c = Cell { kind, ns: nsc, name, text, attr0: 0, nattr: 0 };
+            if with_attr {
+                c.nattr = 1;
+            }
+            t.push(c);
+        }
+        i += 1;
+    }
+    tape::register(0, t);
+    let r = Reply::<CloseSession>::from_xml(tape::input_for(0));
+    kani::cover!(r.is_ok(), "some arbitrary tape is a valid reply");
+    kani::cover!(r.is_err(), "some arbitrary tape is rejected");
+    std::mem::forget(r);
+}
